@@ -1118,6 +1118,132 @@ class Module:
         self.out.append(indent(code, 1))
         self.out.append("")
 
+    # -- T14: a dict-backed mapping with change notifications ----------------------------------------------------------------------
+    def translate_dict_class(self, cls: str) -> None:
+        """T14: `ExtendedPropertyDictionary` (nitypes/waveform/_extended_properties.py): a MutableMapping over `self._properties` whose
+        writes notify listeners.  The class is read as a whole:
+
+          * inventory: exactly the methods listed in EXPECT below are defined (anything else - an own `update`, `setdefault`, `pop`,
+            `clear`, `copy`, `__ior__` ... - would replace a MutableMapping mixin that is assumed to go through `__setitem__` /
+            `__delitem__`), the base is MutableMapping, the slots are `_properties` and `_on_key_changed`;
+          * the readers and `__init__`, `__reduce__`, `_notify_on_key_changed` have exactly their canonical bodies (compared as text);
+          * the writers `__setitem__`, `__delitem__`, `_merge` are translated statement by statement into functions from the
+            dictionary to (the new dictionary, the keys notified in order):
+              `operator.setitem(self._properties, K, V)` / `self._properties[K] = V`,  `operator.delitem(self._properties, K)` /
+              `del self._properties[K]` (KeyError),  `self._notify_on_key_changed(K)`,  `if K [not] in self._properties: <block>`,
+              `for K, V in other.items(): <block without deletions>`.
+        Anything else is Untranslatable (closed subset)."""
+        c = self.find_class(cls)
+
+        def fail(msg, node=None):
+            raise Untranslatable(f"{cls}: {msg}", node or c, self.path)
+        if [ast.unparse(b).split("[")[0] for b in c.bases] != ["MutableMapping"]:
+            fail(f"bases {[ast.unparse(b) for b in c.bases]}, expected MutableMapping[...]")
+        EXPECT = {
+            "__init__": "self._properties: dict[str, ExtendedPropertyValue] = {}\nself._on_key_changed: list[weakref.ref[OnKeyChangedCallback]] = []\n"
+                        "if properties is not None:\n    self._properties.update(properties)",
+            "__len__": "return len(self._properties)",
+            "__iter__": "return iter(self._properties)",
+            "__contains__": "return operator.contains(self._properties, value)",
+            "__getitem__": "return operator.getitem(self._properties, key)",
+            "_notify_on_key_changed": "for callback_ref in self._on_key_changed:\n    callback = callback_ref()\n    if callback:\n        callback(key)",
+            "__reduce__": "return (self.__class__, (self._properties,))",
+            "__repr__": None, "__setitem__": None, "__delitem__": None, "_merge": None,
+        }
+        methods = {n.name: n for n in c.body if isinstance(n, (ast.FunctionDef, ast.AsyncFunctionDef))}
+        extra, missing = sorted(set(methods) - set(EXPECT)), sorted(set(EXPECT) - set(methods))
+        if extra or missing:
+            fail(f"method inventory differs: unexpected {extra}, missing {missing} (a MutableMapping mixin replaced or a writer removed)")
+        for n in c.body:
+            if isinstance(n, ast.Assign) and ast.unparse(n.targets[0]) == "__slots__":
+                if sorted(ast.literal_eval(n.value)) != ["_on_key_changed", "_properties"]:
+                    fail(f"slots {ast.unparse(n.value)}", n)
+            elif not isinstance(n, (ast.FunctionDef, ast.Expr, ast.Assign)):
+                fail(f"unexpected class member {ast.unparse(n)[:60]}", n)
+
+        def body_of(fn):
+            return [st for st in fn.body if not (isinstance(st, ast.Expr) and isinstance(st.value, ast.Constant))]
+        for name, want in EXPECT.items():
+            if want is None:
+                continue
+            got = "\n".join(ast.unparse(st) for st in body_of(methods[name]))
+            if got != want:
+                fail(f"{name} is not the canonical body:\n{got}", methods[name])
+            if methods[name].decorator_list:
+                fail(f"{name} is decorated", methods[name])
+
+        PROPS = "self._properties"
+
+        def stmts(ss, env, in_loop, raises):
+            """-> Lean term computing the new `st : D × List String` (inside Except when `raises`)"""
+            if not ss:
+                return "Except.ok st" if raises else "st"
+            st, rest = ss[0], ss[1:]
+            k = lambda: stmts(rest, env, in_loop, raises)
+
+            def name(e):
+                if isinstance(e, ast.Name) and e.id in env:
+                    return env[e.id]
+                fail(f"unknown operand {ast.unparse(e)}", e)
+            if isinstance(st, ast.Expr) and isinstance(st.value, ast.Call) and not st.value.keywords:
+                f, a = ast.unparse(st.value.func), st.value.args
+                if f == "operator.setitem" and len(a) == 3 and ast.unparse(a[0]) == PROPS:
+                    return f"let st := (Py.Dict.set st.1 {name(a[1])} {name(a[2])}, st.2)\n{k()}"
+                if f == "operator.delitem" and len(a) == 2 and ast.unparse(a[0]) == PROPS:
+                    if in_loop or not raises:
+                        fail("a deletion inside a loop", st)
+                    return f"Except.bind (Py.Dict.del st.1 {name(a[1])}) (fun p =>\n  let st := (p, st.2)\n{indent(k(), 1)})"
+                if f == "self._notify_on_key_changed" and len(a) == 1:
+                    return f"let st := (st.1, st.2 ++ [{name(a[0])}])\n{k()}"
+            if isinstance(st, ast.Assign) and len(st.targets) == 1 and isinstance(st.targets[0], ast.Subscript) \
+                    and ast.unparse(st.targets[0].value) == PROPS:
+                return f"let st := (Py.Dict.set st.1 {name(st.targets[0].slice)} {name(st.value)}, st.2)\n{k()}"
+            if isinstance(st, ast.Delete) and len(st.targets) == 1 and isinstance(st.targets[0], ast.Subscript) \
+                    and ast.unparse(st.targets[0].value) == PROPS:
+                if in_loop or not raises:
+                    fail("a deletion inside a loop", st)
+                return f"Except.bind (Py.Dict.del st.1 {name(st.targets[0].slice)}) (fun p =>\n  let st := (p, st.2)\n{indent(k(), 1)})"
+            if isinstance(st, ast.If) and isinstance(st.test, ast.Compare) and len(st.test.ops) == 1 \
+                    and isinstance(st.test.ops[0], (ast.In, ast.NotIn)) and ast.unparse(st.test.comparators[0]) == PROPS:
+                c_ = f"Py.Dict.contains st.1 {name(st.test.left)} = true"
+                if isinstance(st.test.ops[0], ast.NotIn):
+                    c_ = f"¬ ({c_})"
+                if raises:
+                    fail("a membership test in a method that can raise", st)
+                tb = stmts(st.body, env, in_loop, False)
+                eb = stmts(st.orelse, env, in_loop, False) if st.orelse else "st"
+                return f"let st := if {c_} then\n{indent(tb, 2)}\n  else\n{indent(eb, 2)}\n{k()}"
+            if isinstance(st, ast.For) and not st.orelse and isinstance(st.target, ast.Tuple) and len(st.target.elts) == 2 \
+                    and all(isinstance(x, ast.Name) for x in st.target.elts) and ast.unparse(st.iter) == "other.items()" and "other" in env \
+                    and not in_loop and not raises:
+                kv, vv = st.target.elts[0].id, st.target.elts[1].id
+                env2 = dict(env); env2[kv] = "kv.1"; env2[vv] = "kv.2"
+                body = stmts(st.body, env2, True, False)
+                return f"let st := {env['other']}.foldl (fun st kv =>\n{indent(body, 2)}) st\n{k()}"
+            fail(f"unsupported statement {ast.unparse(st)[:80]}", st)
+
+        def writer(name, lean_name, params, raises):
+            fn = methods[name]
+            allp = [a.arg for a in fn.args.posonlyargs + fn.args.args][1:]
+            if allp != params:
+                fail(f"{name}: parameters {allp}", fn)
+            env = {p: p for p in params}
+            code = stmts(body_of(fn), env, False, raises)
+            types = {"key": "String", "value": "String", "other": "Py.Dict.D"}
+            ps = " ".join(f"({p} : {types[p]})" for p in params)
+            ret = "Except PyErr (Py.Dict.D × List String)" if raises else "Py.Dict.D × List String"
+            self.out.append(f"/-- generated from `{cls}.{name}`: (the new dictionary, the keys notified in order) -/")
+            self.out.append(f"@[pygen] def {lean_name} (props : Py.Dict.D) {ps} : {ret} :=")
+            self.out.append(indent("let st : Py.Dict.D × List String := (props, [])\n" + code, 1))
+            self.out.append("")
+        writer("__setitem__", "setitem", ["key", "value"], False)
+        writer("__delitem__", "delitem", ["key"], True)
+        writer("_merge", "merge", ["other"], False)
+        self.out.append(f"/-- generated from `{cls}.__init__`: a new dictionary holds a copy of the mapping's entries -/")
+        self.out.append("@[pygen] def init (properties : Option Py.Dict.D) : Py.Dict.D :=")
+        self.out.append("  match properties with\n  | none => []\n  | some p => p.foldl (fun d kv => Py.Dict.set d kv.1 kv.2) []")
+        self.out.append("")
+
     # -- T10: generator loops over time values of one family ------------------------------------------------------------
     def translate_timestamp_generator(self, cls: str, name: str, lean_name: str, attr_types: dict[str, tuple[str, str]],
                                       int_params: list[str]) -> None:
